@@ -254,8 +254,13 @@ func (s *sim) observe() string {
 		apps = " lsn=" + strings.Join(s.appLog[s.appLogged:], ",")
 		s.appLogged = n
 	}
-	return fmt.Sprintf("conn=%v vk=%v va=%v est=%v busy=%d done=%d wire=%d parked=%d%s",
-		connected, s.p.VersionKnown(), s.p.VerAckReceived(), s.established(), nBusy, nDone, nWire, s.y.nParked(), apps)
+	// Not in the log: how many queued messages made it onto the wire.  Whether
+	// a message that is in flight when the peer decides to disconnect is still
+	// written or dropped is decided by the order in which two goroutines of
+	// the peer run; its done signal arrives either way.
+	_ = nWire
+	return fmt.Sprintf("conn=%v vk=%v va=%v est=%v busy=%d done=%d parked=%d%s",
+		connected, s.p.VersionKnown(), s.p.VerAckReceived(), s.established(), nBusy, nDone, s.y.nParked(), apps)
 }
 
 func (s *sim) scriptString() string {
